@@ -458,6 +458,8 @@ impl TransactionBuilder {
 
             //just add first input, to cover needs of one input
             let input = available_inputs.pop().unwrap();
+            #[cfg(feature = "verif-hooks")]
+            crate::verif_hooks::probe("sel_shortcut", available_inputs.len() as u64);
             self.inputs.add_regular_utxo(&input)?;
             input_total = input_total.checked_add(&input.output.amount)?;
         }
@@ -514,6 +516,8 @@ impl TransactionBuilder {
                         .nth(rng.gen_range(0..available_indices.len()))
                         .unwrap();
                     available_indices.remove(&i);
+                    #[cfg(feature = "verif-hooks")]
+                    crate::verif_hooks::probe("ri_fee_topup", i as u64);
                     let input = &available_inputs[i];
                     let input_fee = self.fee_for_input(
                         &input.output.address,
@@ -594,6 +598,8 @@ impl TransactionBuilder {
                         .nth(rng.gen_range(0..available_indices.len()))
                         .unwrap();
                     available_indices.remove(&i);
+                    #[cfg(feature = "verif-hooks")]
+                    crate::verif_hooks::probe("ri_fee_topup", i as u64);
                     let input = &available_inputs[i];
                     let input_fee = self.fee_for_input(
                         &input.output.address,
@@ -635,6 +641,8 @@ impl TransactionBuilder {
                 break;
             }
             let input = &available_inputs[*i];
+            #[cfg(feature = "verif-hooks")]
+            crate::verif_hooks::probe("lf_add", *i as u64);
             // differing from CIP2, we include the needed fees in the targets instead of just output values
             let input_fee =
                 self.fee_for_input(&input.output.address, &input.input, &input.output.amount)?;
@@ -707,6 +715,8 @@ impl TransactionBuilder {
                 }
                 let random_index = rng.gen_range(0..relevant_indices.len());
                 let i = relevant_indices.swap_remove(random_index);
+                #[cfg(feature = "verif-hooks")]
+                crate::verif_hooks::probe("ri_select", i as u64);
                 available_indices.remove(&i);
                 let input = &available_inputs[i];
                 added = added.checked_add(
@@ -739,6 +749,8 @@ impl TransactionBuilder {
                             (ideal as i128 - new as i128).abs() < (ideal as i128 - cur as i128).abs();
                         let not_exceed_max = new < max;
                         if move_closer && not_exceed_max {
+                            #[cfg(feature = "verif-hooks")]
+                            crate::verif_hooks::probe("ri_improve_swap", *j as u64);
                             std::mem::swap(i, j);
                             available_indices.insert(*i);
                             available_indices.remove(j);
@@ -996,6 +1008,8 @@ impl TransactionBuilder {
                     let last_input = unused_inputs.0.pop();
                     match last_input {
                         Some(input) => {
+                            #[cfg(feature = "verif-hooks")]
+                            crate::verif_hooks::probe("change_fallback_input", 0);
                             self.inputs.add_regular_utxo(&input)?;
                             add_change_result = self
                                 .add_change_if_needed_with_optional_script_and_datum(
@@ -1887,6 +1901,8 @@ impl TransactionBuilder {
         use std::cmp::Ordering;
         match &input_total.partial_cmp(&output_total.checked_add(&Value::new(&fee))?) {
             Some(Ordering::Equal) => {
+                #[cfg(feature = "verif-hooks")]
+                crate::verif_hooks::probe("change_exact", 0);
                 // recall: min_fee assumed the fee was the maximum possible so we definitely have enough input to cover whatever fee it ends up being
                 self.set_final_fee(input_total.checked_sub(&output_total)?.coin());
                 Ok(false)
@@ -2069,6 +2085,8 @@ impl TransactionBuilder {
                             // this likely should never happen
                             return Err(JsError::from_str("NFTs too large for change output"));
                         }
+                        #[cfg(feature = "verif-hooks")]
+                        crate::verif_hooks::probe("change_nft_outputs", nft_changes.len() as u64);
                         for nft_change in nft_changes.iter() {
                             // we only add the minimum needed (for now) to cover this output
                             let mut change_value = Value::new(&Coin::zero());
@@ -2126,6 +2144,8 @@ impl TransactionBuilder {
                         let potential_pure_above_minimum =
                             potential_pure_value.coin.compare(&minimum_utxo_val) > 0;
                         if potential_pure_above_minimum {
+                            #[cfg(feature = "verif-hooks")]
+                            crate::verif_hooks::probe("change_pure_extra", 0);
                             new_fee = new_fee.checked_add(&additional_fee)?;
                             change_left = Value::zero();
                             self.add_output(&TransactionOutput {
@@ -2140,6 +2160,8 @@ impl TransactionBuilder {
                     self.set_final_fee(new_fee);
                     // add in the rest of the ADA
                     if !change_left.is_zero() {
+                        #[cfg(feature = "verif-hooks")]
+                        crate::verif_hooks::probe("change_last_topup", 0);
                         self.outputs.0.last_mut().unwrap().amount = self
                             .outputs
                             .0
@@ -2181,6 +2203,8 @@ impl TransactionBuilder {
                             }
                             _ => {}
                         }
+                        #[cfg(feature = "verif-hooks")]
+                        crate::verif_hooks::probe("change_burn", 0);
                         builder.set_final_fee(burn_amount.clone());
                         Ok(false) // not enough input to covert the extra fee from adding an output so we just burn whatever is left
                     }
@@ -2202,6 +2226,8 @@ impl TransactionBuilder {
                             {
                                 false => burn_extra(self, &change_estimator.coin()),
                                 true => {
+                                    #[cfg(feature = "verif-hooks")]
+                                    crate::verif_hooks::probe("change_single_ada", 0);
                                     // recall: min_fee assumed the fee was the maximum possible so we definitely have enough input to cover whatever fee it ends up being
                                     self.set_final_fee(new_fee);
 
@@ -2615,5 +2641,32 @@ impl TransactionBuilder {
         let mut self_copy = self.clone();
         self_copy.set_final_fee((0x1_00_00_00_00u64).into());
         Ok(self.fee_request.get_new_fee(min_fee(&self_copy)?))
+    }
+}
+
+/// Read-only observers for the deterministic-simulation harness (feature `verif-hooks`).
+#[cfg(feature = "verif-hooks")]
+impl TransactionBuilder {
+    /// The inputs currently recorded in the builder, in body order, with the amounts recorded for them.
+    pub fn verif_input_list(&self) -> Vec<(TransactionInput, Value)> {
+        self.inputs
+            .iter()
+            .map(|i| (i.input.clone(), i.amount.clone()))
+            .collect()
+    }
+    /// The collateral inputs currently recorded in the builder with the amounts recorded for them.
+    pub fn verif_collateral_list(&self) -> Vec<(TransactionInput, Value)> {
+        self.collateral
+            .iter()
+            .map(|i| (i.input.clone(), i.amount.clone()))
+            .collect()
+    }
+    /// (collateral return, total collateral) as currently set.
+    pub fn verif_collateral_fields(&self) -> (Option<TransactionOutput>, Option<Coin>) {
+        (self.collateral_return.clone(), self.total_collateral.clone())
+    }
+    /// Outputs currently held by the builder (requested outputs and computed change).
+    pub fn verif_outputs(&self) -> TransactionOutputs {
+        self.outputs.clone()
     }
 }
